@@ -58,8 +58,12 @@ BEH = {
     'pass':     [],
     'skip1':    [('skip', [1])],
     'skip02':   [('skip', [0, 2])],
+    'skip12':   [('skip', [1, 2])],       # two ids in a row
+    'skip34':   [('skip', [3, 4])],       # ... after the start-up phase
     'slow30':   [('slow', 30)],
     'slow150':  [('slow', 150)],
+    'slow250':  [('slow', 250)],       # more than two poll intervals: the waiting side re-requests (and times out a receive slice) meanwhile
+    'slow450':  [('slow', 450)],
     'add':      [('add', 'extra')],
     'hidden':   [('add', '_h')],
     'empty1':   [('empty_at', [1])],
@@ -147,6 +151,18 @@ def c01_family(tier, n):
 
             out.append(scn(f'rejoin2/{b1}/{b2}/{s1}|{s2}', rejoin(n, 2, [b1, b2], [s1, s2])))
 
+    # the join has an output of its own (its receiver is driven with its sender's state, MQ's recv_state coupling)
+    for b1, b2 in [('skip1', 'pass'), ('skip1', 'slow30'), ('skip1', 'slow150'), ('skip02', 'slow150'), ('slow150', 'skip1'), ('pass', 'pass'),
+                   ('skip12', 'slow150'), ('skip12', 'slow250'), ('skip1', 'slow250'), ('skip12', 'slow30')]:
+        for period in [0, 60]:      # (a paced source: the frame after the skipped ids reaches the join while it waits inside a blocking receive)
+            if period and 'skip' not in b1:
+                continue
+
+            fs = rejoin(n + 1, 2, [b1, b2], ['b1', 'b2;main>other'], period=period)
+            fs[-1] = relay('snk', ['b1', 'b2;main>other'], required='end')
+            fs.append(sink('end', ['snk']))
+            out.append(scn(f'rejoin2out/{b1}/{b2}' + (f'/p{period}' if period else ''), fs))
+
     # three branches
     for bs in [('pass', 'pass', 'pass'), ('skip1', 'pass', 'pass'), ('pass', 'skip1', 'slow30'), ('pass', 'pass', 'skip02'), ('slow150', 'skip1', 'pass')]:
         out.append(scn('rejoin3/' + '/'.join(bs), rejoin(n, 3, bs, ['b1', 'b2;main>other', 'b3;main>third'])))
@@ -164,6 +180,17 @@ def c01_family(tier, n):
             out.append(scn(f'join2chain/{beh}/p{p2}', [src(n, 's1', required='r'), relay('r', ['s1'], beh, required='snk'),
                                                          src(n, 's2', period=p2, required='snk'), sink('snk', ['r', 's2;main>other'])]))
 
+    # ... the same where the join has an output of its own (MQ couples its receiver with its sender's state)
+    # (with a paced first chain the frame after the skipped ids reaches the join while it waits inside a blocking receive slice)
+    for beh in ['skip1', 'skip12', 'skip34']:
+        for p1, p2 in [(0, 60), (0, 150), (0, 250), (70, 200), (110, 200), (40, 250)]:
+            if (beh == 'skip34') != (p1 == 110):
+                continue
+
+            out.append(scn(f'join2chain-out/{beh}/p{p1}-{p2}', [src(n + (3 if beh == 'skip34' else 1), 's1', period=p1, required='r'), relay('r', ['s1'], beh, required='snk'),
+                                                                  src(n + (3 if beh == 'skip34' else 1), 's2', period=p2, required='snk'),
+                                                                  relay('snk', ['r', 's2;main>other'], required='end'), sink('end', ['snk'])]))
+
     # topic sets that vary from id to id (a topic only on some ids), explicit and subscribe-all consumers
     for sub in ['mid;main;extra', 'mid', 'mid;extra>x;main']:
         out.append(scn(f'chain3var/addat13/{sub}', [src(n + 1, required='mid'), relay('mid', ['src'], 'addat13', required='snk'), sink('snk', [sub])]))
@@ -180,7 +207,7 @@ def c01_family(tier, n):
 
     # the same scenarios with the filters listed in reverse (the base priority orders asc / desc are relative to the listing order, so
     # every base order sees both arrangements)
-    for sc in [x for x in out if x['name'].startswith(('join2var/', 'join2chain/'))]:
+    for sc in [x for x in out if x['name'].startswith(('join2var/', 'join2chain/', 'join2chain-out/'))]:
         out.append({**sc, 'name': sc['name'].replace('/', '-rev/', 1), 'filters': list(reversed(sc['filters']))})
 
     # a load-balanced stage upstream of a tee-rejoin (frames carry the 'balanced' mark through the rejoin)
@@ -292,7 +319,7 @@ def c03_family(tier, n):
         out.append(timely(scn(f'tee-required-prefix/late-{late}', fs)))
 
     # tee-rejoin without skipping branches (the property excludes skipping on rejoined paths)
-    for b1, b2 in [('pass', 'pass'), ('slow30', 'pass'), ('pass', 'slow150'), ('add', 'slow30'), ('slow150', 'slow30')]:
+    for b1, b2 in [('pass', 'pass'), ('slow30', 'pass'), ('pass', 'slow150'), ('add', 'slow30'), ('slow150', 'slow30'), ('slow250', 'pass'), ('pass', 'slow450')]:
         out.append(timely(scn(f'rejoin2/{b1}/{b2}', rejoin(n, 2, [b1, b2], ['b1', 'b2;main>other']))))
 
     out.append(timely(scn('rejoin3/mixed', rejoin(n, 3, ['pass', 'slow30', 'add'], ['b1;main', 'b2;main>other', 'b3;extra>third']))))
@@ -304,7 +331,7 @@ def c03_family(tier, n):
     out.append(timely(scn('rejoin2+skip-after', fs)))
 
     # join of independent sources
-    for p1, p2 in [(0, 0), (0, 30), (150, 0)]:
+    for p1, p2 in [(0, 0), (0, 30), (150, 0), (0, 250), (450, 0)]:
         out.append(timely(scn(f'join2/{p1}/{p2}', [src(n, 's1', period=p1, required='snk'), src(n, 's2', period=p2, required='snk', topics=['main', 'aux']),
                                                    sink('snk', ['s1', 's2;main>other;aux'])])))
 
@@ -379,7 +406,7 @@ def c02_content_family(tier):
         for sub in subs:
             s = timely(scn(f'content/{"+".join(ts)}/{sub}', [
                 {**src(n, required='snk', topics=ts), 'payload': {'rotate': True}},
-                {**sink('snk', [sub]), 'log_content': True}]))
+                {**sink('snk', [sub]), 'log_content': True, 'annotate': True}]))
             out.append(s)
 
     # a camera-style source that overwrites one image buffer per topic for every frame, consumers of different speeds
@@ -387,7 +414,7 @@ def c02_content_family(tier):
         for slow in [0, 30, 150]:
             out.append(timely(scn(f'content-reuse/{"+".join(ts)}/slow{slow}', [
                 {**src(n, required='snk', topics=ts), 'payload': {'reuse': True}},
-                {**sink('snk', ['src'], [('slow', slow)] if slow else []), 'log_content': True}])))
+                {**sink('snk', ['src'], [('slow', slow)] if slow else []), 'log_content': True, 'annotate': True}])))
 
     return out
 
@@ -619,6 +646,10 @@ def c07_family(tier, n):
     return out
 
 
+def topo_name(ops):
+    return '+'.join('skip3rd' if o[0] == 'skip' and len(o[1]) > 5 else f'{o[0]}{o[1] if len(o) > 1 and not isinstance(o[1], list) else ""}' for o in ops) or 'pass'
+
+
 # ---- C06 family: kill / restart / silent consumers ----------------------------------------------------------------------------
 
 C06_CT = 1000     # ZMQ_CONN_TIMEOUT used by most C06 scenarios (a module-level constant of zeromq.py set by the harness)
@@ -690,6 +721,25 @@ def c06_family(tier):
     out[-1]['horizon_ms'] = 2040
     out[-1]['faults']['from_ms'] = 2000
     out[-1]['late_d1'] = True
+
+    # no fault at all: "as long as the source has frames, every live synchronized sink keeps receiving new ones" in pipelines whose
+    # branches skip ids or are slower than the poll interval, with a join that has an output of its own (explored with one deviation)
+    def nofault(name, fs, horizon=2600):
+        s = timely(scn(name, fs), quiet=10**9, horizon=horizon)
+        s['conn_timeout'] = C06_CT
+        s['c06_bound']    = C06_CT + 5 * 100
+        s['c06_nofault']  = True
+        out.append(s)
+
+    every3 = [('skip', list(range(1, N, 3)))]       # a filter that drops every third frame, for as long as the source has frames
+
+    for b1, b2 in [(every3, [('slow', 150)]), (every3, []), ([('slow', 150)], every3), (every3, [('slow', 250)]), ([('slow', 30)], [])]:
+        fs = rejoin(N, 2, [b1, b2], ['b1', 'b2;main>other'], required=False, period=period)
+        fs[-1] = relay('snk', ['b1', 'b2;main>other'])
+        fs.append(sink('end', ['snk']))
+        nofault(f'nofault-rejoin2out/{topo_name(b1)}/{topo_name(b2)}', fs)
+
+    nofault('nofault-chain3/skip-slow', [src(N, period=period), relay('mid', ['src'], every3), sink('snk', ['mid'], [('slow', 150)])])
 
     # graceful stop (stop event: shutdown runs, CLOSE is sent, sockets are closed) and restart under the same id
     for v in ['src', 'mid', 'snk']:
